@@ -48,6 +48,16 @@ def run(out, rng, tier, args):
         cb = CaseBuilder(nconf + j, t, {"stats": st})
         cb.solve(rng.choice(["sampled", "external"]), 1500, 0.0, 1, "vanilla", None, record=True)
         freq.append(cb)
+    # a chance infoset one of whose declared (positive, finite) weights normalises to exactly 0 in binary64, with
+    # outcomes declared after it: that outcome has probability 0 and must never be drawn, the others keep their shares
+    for j in range(2 if tier == "quick" else 6):
+        sub = lambda pl_, i_: {"p": pl_, "i": i_, "a": [[1, {"t": f2b(rng.uniform(-3, 3))}], [2, {"t": f2b(rng.uniform(-3, 3))}]]}
+        ws = rng.choice([[1e-200, 1e200, 1e200], [1e200, 1e-200, 3e200], [2e-300, 5e-300 * 1e300, 1e10 * 1e200 / 1e10]])
+        t = {"c": 5, "o": [[f2b(w), sub(1 + (k % 2), 40 + k)] for k, w in enumerate(ws)]}
+        from ..gen import tree_stats
+        cb = CaseBuilder(nconf + 100 + j, t, {"stats": tree_stats(t)})
+        cb.solve(rng.choice(["sampled", "external"]), 400, 0.0, rng.choice([1, 2]), "vanilla", None, record=True)
+        freq.append(cb)
     impl1 = harness.run_cases("C10p1", [cb.case() for cb in p1 + freq], chunk=max(1, (nconf + 8) // 8 + 1), jobs=4)
     # ---------------- phase 2: replay the recorded draws through the model ----------------
     cases = []
@@ -173,7 +183,10 @@ def run(out, rng, tier, args):
         for (kind, cell), a in acc.items():
             for k_, (e, v, c) in enumerate(a):
                 out.count("frequency_cells_tested")
-                if v > 5 and abs(c - e) / math.sqrt(v) > 6.0:
+                if e == 0.0 and c > 0:
+                    out.monitor_hits.append((cb.cid, "%s cell %d outcome %d has probability exactly 0 at every draw but was drawn %d times"
+                                             % ("chance" if kind == 0 else "player", cell, k_, c), {"case": cb.case()}, "frequency-zero"))
+                elif v > 5 and abs(c - e) / math.sqrt(v) > 6.0:
                     out.monitor_hits.append((cb.cid, "%s cell %d outcome %d was drawn %d times, expected %.1f +- %.1f (z = %.1f)"
                                              % ("chance" if kind == 0 else "player", cell, k_, c, e, math.sqrt(v),
                                                 (c - e) / math.sqrt(v)), {"case": cb.case()}, "frequency"))
